@@ -1,14 +1,28 @@
-/* C08: string_printf / string_vprintf. The conversion itself IS vasprintf (environment), so only the phosg logic around it
- * is decidable: the returned std::string consists of exactly the `length` bytes vasprintf produced (embedded NULs kept,
- * nothing read beyond them), the malloc'ed buffer is freed exactly once (CBMC --memory-leak-check / ASan natively), the
- * format and the arguments are passed through unchanged, and a NULL result becomes bad_alloc.
- * vasprintf is a CONTRACT stub: LEN (cell) symbolic bytes in a malloc'ed buffer of LEN+1 bytes, or (FAIL=1) NULL and -1. */
+/* C08: string_printf / string_vprintf. The conversion itself IS the libc printf family (environment), so what is decidable
+ * is the phosg logic around it: the returned std::string consists of exactly the n bytes the formatter produced (embedded
+ * NULs kept, nothing lost at an internal buffer boundary, nothing read beyond them), a malloc'ed vasprintf buffer is freed
+ * exactly once (CBMC --memory-leak-check / ASan natively), the format and the arguments reach every formatter call
+ * unchanged, and a NULL result of vasprintf becomes bad_alloc.
+ *
+ * Environment = CONTRACT model of the two libc entry points an implementation may use, both backed by the same
+ * harness-owned "formatted output" F[0..LEN) (LEN = cell, bytes symbolic incl. NUL):
+ *   vsnprintf(buf, size, fmt, va): stores min(LEN, size-1) bytes of F and a NUL when size > 0 (buf may be NULL when
+ *                                  size == 0), touches nothing else, returns LEN                       [C99 7.19.6.12]
+ *   vasprintf(&p, fmt, va):        p = malloc(LEN+1) holding F and a NUL, returns LEN; FAIL=1: p = NULL, returns -1
+ * (/repo HEAD calls only vasprintf; the vsnprintf model exists so that an implementation with a fixed-size first attempt
+ * is decided instead of reported as "unmodelled external".)
+ * Checked: size() == LEN and ONE symbolic index i < LEN with result[i] == F[i] (any wrong byte is some i). */
 #include <stdarg.h>
 #include <stdlib.h>
 #include "harness.h"
 int64_t w_string_printf(uint32_t arg, uint8_t* out, uint64_t cap);
-static uint8_t produced[LEN + 1];
-static uint32_t seen_arg, calls, fmt_ok;
+static uint8_t F[LEN + 8];
+static uint32_t want_arg, calls, va_calls, bad_calls;
+static void see(const char* fmt, va_list va) {
+  calls++;
+  if (!(fmt[0] == '%' && fmt[1] == 'u' && fmt[2] == 0)) bad_calls++;
+  if (va_arg(va, unsigned int) != want_arg) bad_calls++;
+}
 #ifdef VERIF_NATIVE_REAL
 int vasprintf(char** outp, const char* fmt, va_list va_in) {
   va_list va; va_copy(va, va_in);
@@ -17,10 +31,9 @@ uint32_t X_vasprintf(uint8_t* outp_, uint8_t* fmt_, uint8_t* va_) {
   char** outp = (char**)outp_; const char* fmt = (const char*)fmt_;
   va_list va; va_copy(va, *(va_list*)va_);
 #endif
-  calls++;
-  fmt_ok = fmt[0] == '%' && fmt[1] == 'u' && fmt[2] == 0;
-  seen_arg = va_arg(va, unsigned int);
+  see(fmt, va);
   va_end(va);
+  va_calls++;
 #if FAIL
   *outp = 0;
   return -1;
@@ -29,22 +42,49 @@ uint32_t X_vasprintf(uint8_t* outp_, uint8_t* fmt_, uint8_t* va_) {
 #ifdef VERIF_CBMC
   __CPROVER_assume(buf != 0);
 #endif
-  for (int i = 0; i < LEN; i++) buf[i] = (char)(produced[i] = in_u8());
+  for (int i = 0; i < LEN; i++) buf[i] = (char)F[i];
   buf[LEN] = 0;
   *outp = buf;
   return LEN;
 #endif
 }
+#ifdef VERIF_NATIVE_REAL
+int vsnprintf(char* buf, size_t size, const char* fmt, va_list va_in) {
+  va_list va; va_copy(va, va_in);
+#else
+uint32_t X_vsnprintf(uint8_t* buf_, uint64_t size, uint8_t* fmt_, uint8_t* va_) {
+  char* buf = (char*)buf_; const char* fmt = (const char*)fmt_;
+  va_list va; va_copy(va, *(va_list*)va_);
+#endif
+  see(fmt, va);
+  va_end(va);
+  if (size > 0) {
+    uint64_t k = (uint64_t)LEN < size - 1 ? (uint64_t)LEN : size - 1;
+    for (int i = 0; i < LEN; i++) if ((uint64_t)i < k) buf[i] = (char)F[i];
+    buf[k] = 0;
+  }
+  return LEN;
+}
 void harness(void) {
-  uint8_t out[LEN + 1];
+  static uint8_t out[LEN + 1];
+  /* the decisive inputs first, then F packed 8 bytes per input word, LAST word first (the replay vector holds 512 words:
+   * for LEN = 4097 the three words lost are F[0..23], not the bytes at the end) */
+  uint64_t idx = in_range(0, LEN ? LEN - 1 : 0);
   uint32_t arg = in_u32();
+  for (int w = (LEN + 7) / 8 - 1; w >= 0; w--) {
+    uint64_t v = in_u64();
+    for (int b = 0; b < 8; b++) F[8 * w + b] = (uint8_t)(v >> (8 * b));
+  }
+  want_arg = arg;
   int64_t r = w_string_printf(arg, out, LEN + 1);
   OBS(r);
-  ASSERT(calls == 1 && fmt_ok && seen_arg == arg, "format and argument reach vasprintf unchanged, exactly one call");
+  ASSERT(calls >= 1 && bad_calls == 0, "format and argument reach every formatter call unchanged, at least one call");
+  ASSERT(va_calls <= 1, "at most one vasprintf call");
 #if FAIL
-  ASSERT(r == -6, "NULL from vasprintf becomes bad_alloc");
-#else
-  ASSERT(r == LEN, "result length == length returned by vasprintf");
-  if (r == LEN) for (int i = 0; i < LEN; i++) ASSERT(out[i] == produced[i], "result bytes == bytes produced by vasprintf (embedded NULs kept)");
+  if (va_calls) { ASSERT(r == -6, "NULL from vasprintf becomes bad_alloc"); return; }
+#endif
+  ASSERT(r == LEN, "result length == length returned by the formatter");
+#if LEN > 0
+  if (r == LEN) ASSERT(out[idx] == F[idx], "result bytes == bytes the formatter produced (embedded NULs kept, every position)");
 #endif
 }
